@@ -155,9 +155,28 @@ def groups_of(res_set):
 def judge_program(prog_fn, what, do_rename, rng):
     """prog_fn() builds a fresh tree each time it is called."""
     out = {"viol": [], "discard": None, "inconclusive": None, "runs": 0, "events": {}, "renamed": 0, "sha": None, "lines": 0}
+    # the program as generated (object shorthand included) is judged by the model ...
+    prog0 = prog_fn()
+    r0 = P.render(prog0)
+    out["sha"] = core.sha(r0.text)[:12]
+    try:
+        res0 = M.run(prog0, r0, fuel=20000)
+    except M.ModelLimit as e:
+        out["discard"] = str(e)
+        return out
+    o0 = core.run_one({"src": r0.text})
+    out["runs"] += 1
+    if o0.stack_overflow or o0.timeout:
+        out["inconclusive"] = "timeout/stack"
+        return out
+    mm0 = judge.outcome_mismatch(o0, res0)
+    if mm0:
+        out["viol"].append(("model/" + ("crash" if o0.crashed else "behaviour"), "%s: %s" % (what, mm0),
+                            {"src": r0.text, "oracle": "model differential (lexical resolution)", "expected": judge.expected_brief(res0), "observed": o0.brief()}))
+        return out
+    # ... the renaming variants use the shorthand-free spelling (`{a}` -> `{"a": a}`) so property keys stay put
     prog = expand_shorthand(prog_fn())
     r = P.render(prog)
-    out["sha"] = core.sha(r.text)[:12]
     it = M.Interp(r, fuel=20000)
     it.resolutions = set()
     try:
